@@ -71,7 +71,11 @@ func replay(file string) int {
 	var ri seqmc.ReplayInfo
 	if err := json.Unmarshal(f.Replay, &ri); err != nil || ri.Engine != "seqmc" {
 		if r, ok := extraReplay[f.Property]; ok {
-			return r(f.Key, f.Replay)
+			rc := r(f.Key, f.Replay)
+			if rc == 1 {
+				fmt.Printf("VIOLATION property=%s replay=%s\n", f.Property, file)
+			}
+			return rc
 		}
 		fmt.Fprintln(os.Stderr, "not a seqmc replay artefact")
 		return 2
